@@ -13,7 +13,7 @@ from vlib.run import Check, Violation, note_accept
 PROPERTY = "C06"
 RULE = (
     "enum: every interval tier of <=3 (thorough: <=4) non-overlapping intervals with integer "
-    "boundaries on 0..6 (0..8) and every point tier on that grid x every window (a,b) from "
+    "boundaries on 0..5 (0..8) and every point tier on that grid x every window (a,b) from "
     "{-1,-0.5,0,...,G+1}^2 (a<b, a==b and some a>b) x 3 modes x rebase; gen: random grid/decimal "
     "tiers and textgrids with windows drawn from boundaries, midpoints, arbitrary and out-of-span "
     "times. Oracle: reference crop computed on exact rationals from the statement. Non-trivial: "
@@ -229,7 +229,7 @@ def windows(G, tier):
 
 
 def enum_interval(tier, shard, nshards):
-    G, k = (6, 3) if tier == "quick" else (8, 4)
+    G, k = (5, 3) if tier == "quick" else (8, 4)
     i = 0
     for ents in grid_interval_tiers(G, k):
         i += 1
